@@ -946,7 +946,9 @@ func (ex *Exec) onEvent(st *State, ev *Event) {
 					if cond != nil {
 						c = envb.evalBool(cond)
 						if c == nil {
-							ex.Specs.Errors = append(ex.Specs.Errors, fmt.Sprintf("%s: where: %s", tc.Line, strings.Join(berrs, "; ")))
+							if !onlyNoEvent(berrs) {
+								ex.Specs.Errors = append(ex.Specs.Errors, fmt.Sprintf("%s: where: %s", tc.Line, strings.Join(berrs, "; ")))
+							}
 							continue
 						}
 					}
@@ -1052,7 +1054,9 @@ func (ex *Exec) checkRespondFrom(st *State, fr *Frame, ct *Contract, names map[s
 					if cond != nil {
 						c = envb.evalBool(cond)
 						if c == nil {
-							ex.Specs.Errors = append(ex.Specs.Errors, fmt.Sprintf("%s: where: %s", tc.Line, strings.Join(berrs, "; ")))
+							if !onlyNoEvent(berrs) {
+								ex.Specs.Errors = append(ex.Specs.Errors, fmt.Sprintf("%s: where: %s", tc.Line, strings.Join(berrs, "; ")))
+							}
 							continue
 						}
 					}
@@ -1214,4 +1218,10 @@ func allocEscapes(a *ssa.Alloc) bool {
 	r := esc(a, 0)
 	escapeMemo[a] = r
 	return r
+}
+
+// onlyNoEvent: the condition could not be evaluated only because lastArg/lastResult found no call.
+func onlyNoEvent(errs []string) bool {
+	// a missing event makes the sub-expression fail; errors reported afterwards are consequences of it
+	return len(errs) > 0 && strings.HasPrefix(errs[0], "no-event:")
 }
